@@ -1,3 +1,4 @@
+import BoolFn.Proofs.BddQuant
 import BoolFn.Proofs.QuantET
 /-! # C06 — Existential and universal quantification eliminate variables one at a time
 
@@ -99,6 +100,21 @@ theorem order_independent_table (vs vs' : List α) (hp : vs.Perm vs') (hnd : vs.
     exact nested_perm _ _ medial_or hp hnd t ρ
   · rw [Table.forallQ, Table.forallQ, (h2 vs hnd t h ρ).2, (h2 vs' (hp.nodup hnd) t h ρ).2]
     exact nested_perm _ _ medial_and hp hnd t ρ
+end
+
+section
+variable [Ord α] [Std.TransOrd α] [Std.LawfulEqOrd α]
+/-! ### decision diagrams: lib-bdd `exists` / `for_all` on positions + prune -/
+theorem bdd_exists (vs : List α) (hnd : vs.Nodup) (b : Bdd α) (hb : b.WF) :
+    ∃ b', Bdd.existsQ vs b = .ok b' ∧ b'.WF ∧ (∀ y, y ∈ b'.inputs ↔ y ∈ b.inputs ∧ y ∉ vs) ∧
+      ∀ ρ, (b'.den ρ = true ↔ ∃ σ : α → Bool, (∀ y, y ∉ vs → σ y = ρ y) ∧ b.den σ = true) := by
+  obtain ⟨b', h1, h2, h3, h4⟩ := Bdd.existsQ_den vs hnd b hb
+  refine ⟨b', h1, h2, by intro y; rw [h3]; simp, fun ρ => by rw [h4, nested_or_iff]⟩
+theorem bdd_forall (vs : List α) (hnd : vs.Nodup) (b : Bdd α) (hb : b.WF) :
+    ∃ b', Bdd.forallQ vs b = .ok b' ∧ b'.WF ∧ (∀ y, y ∈ b'.inputs ↔ y ∈ b.inputs ∧ y ∉ vs) ∧
+      ∀ ρ, (b'.den ρ = true ↔ ∀ σ : α → Bool, (∀ y, y ∉ vs → σ y = ρ y) → b.den σ = true) := by
+  obtain ⟨b', h1, h2, h3, h4⟩ := Bdd.forallQ_den vs hnd b hb
+  refine ⟨b', h1, h2, by intro y; rw [h3]; simp, fun ρ => by rw [h4, nested_and_iff]⟩
 end
 
 /-- the pre-repair definition `F[all=0] ∘ F[all=1]`, written out, is wrong for two variables:
